@@ -162,10 +162,12 @@ Fixpoint decode_locs (l : list (list Z)) : option (list (Z * Z)) :=
 
 (* the check of fixes/C09_5 after the names / locators loop: column i with role (t, k) is entry k of the list of t,
    and the lists hold as many entries as there are columns with a role *)
+(* entry k of a list, -1 beyond its end (the length is tested first: k may be any 32-bit value) *)
+Definition entry_at (l : list Z) (k : Z) : Z := if zlen l <=? k then -1 else znth l k (-1).
 Fixpoint post_cols (locs : list (list Z)) (i : Z) (tab : list (Z * Z)) : bool :=
   match tab with
   | [] => true
-  | (t, k) :: r => ((t <? 0) || (znth (znth locs t []) k (-1) =? i)) && post_cols locs (i + 1) r
+  | (t, k) :: r => ((t <? 0) || (entry_at (znth locs t []) k =? i)) && post_cols locs (i + 1) r
   end.
 Definition declared (tab : list (Z * Z)) : Z := zlen (filter (fun p => 0 <=? fst p) tab).
 Definition post_ok (tab : list (Z * Z)) (locs : list (list Z)) : bool :=
@@ -219,7 +221,7 @@ Definition db_deserialize (E : env) (gt : option (Z * Z)) (m : mon) : res (optio
           | None => if fix_locfail (e_cfg E) then Ret None m6    (* fix C09_3 (second hunk): a refused locator is a failure *)
                     else Ret (Some db_empty) m6        (* "return true" on a refused locator: nothing loaded *)
           | Some tab =>
-              (* proposed fix C09_5: a locator rank is below the number of columns of the file *)
+              (* fixes/C09_5: a locator rank is below the number of columns of the file *)
               if fix_rank (e_cfg E) && existsb (fun p => ncol <=? snd p) tab then Ret None m6 else
               (* fix C09_4: a DbGrid refuses a number of samples that is not the grid size *)
               if fix_grid (e_cfg E) && match gt with Some (_, exact) => negb (nech =? exact) | None => false end then Ret None m6 else
@@ -238,7 +240,7 @@ Definition db_deserialize (E : env) (gt : option (Z * Z)) (m : mon) : res (optio
               | None => Bad (Hang 18)
               | Some nms =>
               do locs9, m9 <- apply_locs E ncol 0 tab no_loc m8;
-              (* proposed fix C09_5: every column finds itself at its declared rank and no role slot is a filler *)
+              (* fixes/C09_5: every column finds itself at its declared rank and no role slot is a filler *)
               if fix_rank (e_cfg E) && negb (post_ok tab locs9) then Ret None m9 else
               Ret (Some (mkDb ncol nech' nms (zseq ncol) locs9 arr)) m9
               end
